@@ -16,6 +16,11 @@ Round 3: the edits also move objects from one side to the other (see `cross_move
 Round 4: copies put back into the tree of their original and ids repeated along a path (`nest_ops`,
 `dup_ids`); the counterfactual clause (`counterfactual`): each case of the stream `+cf` is also run without
 the operations of one side, and the other side must behave the same - state no snapshot shows included.
+Round 5: repositories - the attribute a Section inherits from the Sections above it and from the Document
+(`Gen.repos`, every third document; every such document is also a template file for
+TemplateHandler.clone_section), written through its setter on both sides, unresolvable includes, what each
+object answers for `get_repository()` in every snapshot (model: `inherited`, theorem
+`clone_inherits_nothing`); the handler asked for what does not exist (`clone_missing`).
 """
 import os
 import shutil
@@ -48,7 +53,17 @@ FLOATS = [0.5, -1.25, 3.0, 1e+20, 0.1]
 DATES = [(2011, 12, 1), (999, 1, 2), (1, 1, 1), (2024, 2, 29), (1970, 1, 1)]
 TIMES = [(0, 0, 0), (12, 0, 1), (23, 59, 59)]
 
-PRODUCERS = ("clone", "export", "get_values", "new_list", "new_obj")
+# round 5: repositories (an attribute a Section INHERITS from the Sections above it and from the Document
+# when it has none of its own: `get_repository`). None of them can be reached: the loader thread the
+# `repository` setter starts fails at once, nothing leaves the machine. "<inc>" stands for the terminology
+# file of the case (reachable), where there is one.
+REPOS = ["file:///nonexistent/c11/terms.xml", "file:///nonexistent/c11/terms.xml#amplifier",
+         "file:///nonexistent/c11/other.xml", u"file:///nonexistent/c11/t\u00e9rm.xml", "a", "not a url"]
+DOC_DATES = ["2011-12-01", "0999-01-02", ""]
+
+# "clone_missing": TemplateHandler.clone_section asked for a Section / a file that does not exist - it
+# has to refuse and, like every producer, change nothing that exists
+PRODUCERS = ("clone", "export", "get_values", "new_list", "new_obj", "clone_missing")
 LIST_MUTATORS = ("list_append", "list_set", "list_del", "list_inner_set")
 FREE_OPS = ("insert", "reorder", "set_card", "prop_extend", "prop_remove", "prop_insert", "clean",
             "create_section", "create_property", "set_parent", "extend", "values_retype", "sec_merge",
@@ -224,9 +239,19 @@ class World(object):
         if depth > 40:
             # a well-formed leaf, so that everything that walks snapshots can go on
             return {"h": self.idx(obj), "k": kind, "n": "<too deep>", "id": "<too deep>", "a": [],
-                    "v": None, "m": None, "s": [], "p": [], "too_deep": True}
+                    "v": None, "m": None, "r": None, "s": [], "p": [], "too_deep": True}
         node = {"h": self.idx(obj), "k": kind, "n": "" if kind == "doc" else obj.name, "id": obj.id,
-                "a": self.attrs(obj, kind), "v": None, "m": None, "s": [], "p": []}
+                "a": self.attrs(obj, kind), "v": None, "m": None, "r": None, "s": [], "p": []}
+        if kind in ("doc", "sec"):
+            # what the object answers for its repository: its own, or what it inherits from the
+            # nearest object above it that has one (round 5; the model: `inherited`)
+            try:
+                eff = obj.get_repository()
+                node["r"] = None if eff is None else repr(eff)
+            except Exception as exc:
+                node["r"] = "<%s>" % fw.exc_name(exc)
+            if self.scrub and node["r"]:
+                node["r"] = node["r"].replace(self.scrub, "<tmp>")
         if kind == "prop":
             node["v"] = enc_values(obj.values)
         if kind == "sec":
@@ -269,14 +294,22 @@ class World(object):
 
 def build_doc(spec, inc_url=None):
     import odml
+    def repo(val):
+        # "<inc>": the terminology file of the case (a repository that can be reached)
+        if val == "<inc>":
+            return inc_url
+        return val
     doc = odml.Document(author=spec.get("author"), version=spec.get("version"), date=spec.get("date"),
-                        oid=spec.get("oid"))
+                        oid=spec.get("oid"), repository=repo(spec.get("repository")))
 
     def add_sec(parent, s):
         # "ulink": the link is given to the constructor, which stores it unresolved
+        # "uinc": an include that cannot be resolved (the file does not exist); it stays an attribute
         sec = odml.Section(name=s["name"], type=s.get("type", "t"), parent=parent,
                            definition=s.get("definition"), oid=s.get("oid"),
-                           reference=s.get("reference"), link=s.get("ulink"))
+                           reference=s.get("reference"), link=s.get("ulink"),
+                           repository=repo(s.get("repository")),
+                           include=s.get("uinc") if not s.get("ulink") else None)
         if s.get("sec_card") is not None:
             sec.sec_cardinality = tuple(s["sec_card"])
         if s.get("prop_card") is not None:
@@ -468,6 +501,14 @@ class Gen(object):
             (0.06, {"o": "rename", "x": self.sel("secprop"), "new": r.choice(NAMES)}),
             (0.07, {"o": "set_attr", "x": self.sel("any"), "which": r.randrange(0, 6),
                     "val": r.choice(TOKENS + ["card1", "card2", "none"])}),
+            # round 5: the repository (Document and Sections: its own setter, '' means None) and the
+            # date of the Document
+            (0.03, {"o": "set_attr", "x": self.sel("cont"), "which": r.randrange(0, 6),
+                    "attr": r.choice(["repository", "repository", "repository", "date"]),
+                    "val": r.choice(REPOS + ["", "none"]), "k": r.randrange(1000)}),
+            (0.02, {"o": "set_attr", "x": self.sel("prop"), "which": r.randrange(0, 6),
+                    "attr": r.choice(["uncertainty", "dependency_value"]),
+                    "val": r.choice(TOKENS), "k": r.randrange(1000)}),
             (0.02, {"o": "new_id", "x": self.sel("any")}),
             (0.03, {"o": "clone", "x": self.sel("any"), "children": r.random() < 0.7,
                     "keep": r.random() < 0.4, "style": r.choice(["kw", "pos"])}),
@@ -622,6 +663,36 @@ class Gen(object):
                 prev = sub.get("oid")
         for s in d["sections"]:
             walk(s, [d.get("oid")])
+        return d
+
+    # -- round 5 ------------------------------------------------------------------------------
+    def repos(self, d, reachable=False):
+        """Repositories, the attribute a Section inherits from its surroundings: on the Document (as
+        the published templates have it; mostly), on Sections at every level - none of their own
+        (inherited from the Document / from a Section above), their own, the very URL the Document
+        or the Section above carries, another one - and, rarely, an include that cannot be resolved.
+        A copy is detached: it carries what the object itself carries, whatever the surroundings say."""
+        r = self.r
+        if r.random() < 0.8:
+            d["repository"] = "<inc>" if reachable and r.random() < 0.5 else r.choice(REPOS[:4])
+
+        def walk(s, above, depth):
+            x = r.random()
+            mine = None
+            if x < (0.25 if depth == 1 else 0.2):
+                mine = r.choice(REPOS)
+            elif x < 0.35 and above:
+                mine = above                    # its own, and equal to what it would inherit
+            if mine:
+                s["repository"] = mine
+            if r.random() < 0.05 and not any(k in s for k in ("link", "ulink", "inc")):
+                s["uinc"] = r.choice(["file:///nonexistent/c11/inc.xml", "file:///nonexistent/c11/inc.xml#/T"])
+            for sub in s["sections"]:
+                walk(sub, mine or above, depth + 1)
+        for s in d["sections"]:
+            walk(s, d.get("repository"), 1)
+        if not d.get("repository") and not any("repository" in s for s in d["sections"]) and d["sections"]:
+            d["sections"][-1]["repository"] = r.choice(REPOS)
         return d
 
     def nest_ops(self):
@@ -837,6 +908,16 @@ class Gen(object):
                            {"o": "clone", "via_handler": True, "x": self.sel("sec"),
                             "children": self.r.random() < 0.7, "keep": self.r.random() < 0.5,
                             "style": self.r.choice(["kw", "pos"])})
+            if free and self.r.random() < 0.5:
+                # round 5: the handler is asked for a Section / a file that does not exist (refused;
+                # the state a refused call leaves behind), and asked again afterwards
+                at = self.r.randrange(0, len(out) + 1)
+                out.insert(at, {"o": "clone_missing", "what": self.r.choice(["name", "name", "url", "nested"]),
+                                "x": self.sel("sec"), "children": self.r.random() < 0.7,
+                                "keep": self.r.random() < 0.5})
+                out.insert(self.r.randrange(at + 1, len(out) + 1),
+                           {"o": "clone", "via_handler": True, "x": self.sel("sec"),
+                            "children": self.r.random() < 0.7, "keep": self.r.random() < 0.5, "style": "kw"})
         return out
 
 
@@ -1037,6 +1118,30 @@ class Exec(object):
             return self.op_clone(x, op["children"], op["keep"], "copy",
                                  via=lambda: handler.clone_section(url, name, children=op["children"],
                                                                    keep_id=op["keep"]))
+        if o == "clone_missing":
+            # clone_section for a name that is not a root Section of the template (no such name; the
+            # name of a Section further down) or for a file that does not exist: refused
+            if self.handler is None:
+                return
+            handler, url = self.handler, self.url
+            name = "no such section"
+            if op["what"] == "url":
+                url = "file:///nonexistent/c11/no_template.xml"
+                tops = [ob for ob in self.loaded.sections]
+                name = tops[op["x"]["n"] % len(tops)].name if tops else name
+            elif op["what"] == "nested":
+                tops = set(ob.name for ob in self.loaded.sections)
+                deep = [ob.name for top in self.loaded.sections for ob in top.itersections()
+                        if ob.name not in tops]
+                name = deep[op["x"]["n"] % len(deep)] if deep else name
+            self.cur_side = "copy"
+
+            def reg(ret):
+                w.register_tree(ret, "copy")
+                return {"ret": w.idx(ret)}
+            return self.do({"o": o, "free": True, "what": op["what"]},
+                           lambda: handler.clone_section(url, name, children=op["children"],
+                                                         keep_id=op["keep"]), reg)
         if o == "clone":
             x = self.pick(op["x"], side)
             if x is None:
@@ -1202,6 +1307,29 @@ class Exec(object):
                              "val_cardinality"]}[kind]
             key = keys[op["which"] % len(keys)]
             val = op["val"]
+            if op.get("attr") == "repository" and kind in ("doc", "sec"):
+                key = "repository"
+                if val == "none":
+                    val = None
+                elif op.get("k", 0) % 4 == 0:
+                    # the repository this object inherits at the moment / the Document's: its own
+                    # from now on (it looks the same from inside the tree, not on a detached copy)
+                    try:
+                        inh = obj.get_repository() if kind == "sec" else None
+                        if inh is None and kind == "sec" and obj.document is not None:
+                            inh = obj.document.repository
+                        val = inh or val
+                    except Exception:
+                        pass
+            elif op.get("attr") == "date" and kind == "doc":
+                key = "date"
+                val = DOC_DATES[op.get("k", 0) % len(DOC_DATES)]
+            elif op.get("attr") == "uncertainty" and kind == "prop":
+                key = "uncertainty"               # a number, as text or as a number; '' is None
+                val = ["0.5", 12, "", "1e+20", 0.25][op.get("k", 0) % 5]
+            elif op.get("attr") == "dependency_value" and kind == "prop":
+                key = "dependency_value"
+                val = "" if op.get("k", 0) % 5 == 0 else val
             if op.get("from") is not None and not key.endswith("cardinality"):
                 # the value another Section of this side carries for the attribute, if it has one
                 other = self.pick({"sel": "sec", "n": op["from"]}, side)
@@ -1209,7 +1337,8 @@ class Exec(object):
                     val = getattr(w.objs[other], key)
             if key.endswith("cardinality"):
                 val = {"card1": (1, 3), "card2": (None, 2)}.get(val, None)
-            elif val in ("card1", "card2", "none"):
+            elif val in ("card1", "card2", "none") or (val in REPOS[:4] + [""] and key not in
+                                                       ("repository", "date", "uncertainty", "dependency_value")):
                 val = "w"
             allk = {"doc": DOC_KEYS, "sec": SEC_KEYS, "prop": PROP_KEYS}[kind]
             rop = {"o": o, "x": x, "i": allk.index(key), "v": None, "key": key}
@@ -1756,6 +1885,21 @@ class Exec(object):
             self.steps[-1]["snap"] = w.snap()
 
     # -- a whole case ------------------------------------------------------------
+    @staticmethod
+    def join_loaders():
+        """The `repository` setter starts a loader thread per URL (all URLs of this check fail at
+        once): none is left running when the case ends, and the table of loader threads of the
+        process does not grow from case to case."""
+        try:
+            import odml.terminology as terminology
+            table = terminology.terminologies.loading
+            for url, thread in list(table.items()):
+                thread.join(5)
+                if not thread.is_alive() and (url in REPOS or str(url).startswith("file:///nonexistent/c11/")):
+                    table.pop(url, None)
+        except Exception:
+            pass
+
     def write_xml(self, doc, fname):
         from odml.tools.odmlparser import ODMLWriter
         tmp = tempfile.mkdtemp(prefix="c11_")
@@ -1885,6 +2029,7 @@ class Exec(object):
                 self.edit(op, side if side in ("copy", "orig") else "copy")
             return {"init": init, "steps": self.steps}
         finally:
+            self.join_loaders()
             tempfile.tempdir = old_tmp
             if term_url is not None:
                 try:
@@ -2047,7 +2192,9 @@ class C11(fw.Check):
         "export_leaf_detached_property",
         "export_leaf_chain_reachable",
         "clone_tree_equal_illtyped_counterexample",
-        "export_leaf_chain_repeated_ids"]]
+        "export_leaf_chain_repeated_ids",
+        "clone_inherits_nothing",
+        "clone_inherits_nothing_template"]]
     case_timeout = 30
     trusted_base = [
         "Lean 4.33.0 kernel; axioms propext, Classical.choice, Quot.sound only (audited per theorem)",
@@ -2086,7 +2233,13 @@ class C11(fw.Check):
             "siblings; counterfactual stream: documents with links / includes in many configurations "
             "(and merges made only after the copy), copy of a merged Section / the Document / a "
             "template Section, both sides cleaned, un-merged, linked, finalized, merged and edited in "
-            "turn, each case run again without the operations of either side; "
+            "turn, each case run again without the operations of either side; every third document "
+            "with repositories on the Document and / or on Sections at every level (none of their own = "
+            "inherited, their own, the same as the one they would inherit), rarely an include that "
+            "cannot be resolved, each of them also as a template file; the repository written through "
+            "its setter ('' and None included), Document date, Property uncertainty and "
+            "dependency_value among the edits; TemplateHandler.clone_section for a name / a file that "
+            "does not exist, then again for one that does; "
             "every parentless object and every caller-held list is "
             "snapshotted after every operation. Non-trivial = the case has at least one edit that "
             "was carried out; distinct = distinct canonical JSON of the case.")
@@ -2101,6 +2254,9 @@ class C11(fw.Check):
             doc = g.doc(linked=(di % 5 == 4), shape=shape)
             if di % 5 == 2:
                 g.dup_ids(doc)                # ids repeated along a path / among siblings
+            with_repos = di % 3 == 1
+            if with_repos:
+                g.repos(doc)                  # round 5: repositories on the Document / on Sections
             n_nodes = 1 + self.count(doc)
             roots = list(range(n_nodes)) if tier == "thorough" or n_nodes <= 6 else \
                 sorted(rng.sample(range(n_nodes), 6))
@@ -2153,7 +2309,8 @@ class C11(fw.Check):
                 if rng.random() < 0.2:
                     case["pre"] = g.ops(rng.randrange(1, 4), free)
                 cases.append(case)
-            if di % 4 == 0:
+            for _ in range((di % 4 == 0) + with_repos):
+                # (round 5: every document with repositories is also a template file)
                 free = rng.random() < 0.25
                 side = rng.choice(["copy", "orig", "mixed"])
                 case = {"stream": "free" if free else "template", "doc": doc, "side": side,
@@ -2210,6 +2367,10 @@ class C11(fw.Check):
             term = None
             if ci % 6 == 3:
                 term, doc = g.inc_pair()       # merged through `include` instead of `link`
+            if ci % 4 == 1:
+                # round 5: repositories (the merged / included Sections and their targets carry and
+                # inherit them; with a terminology file the Document's may be that file)
+                g.repos(doc, reachable=term is not None)
             n_nodes = 1 + self.count(doc)
             for _ in range(3):
                 x = rng.random()
@@ -2348,6 +2509,17 @@ class C11(fw.Check):
                     out.append("%s raised %s on a well-formed tree" % (tag, cur["out"]["raised"]))
                 if o in ("clone", "export") and not first_copy_done:
                     first_copy_done = True
+            if o == "clone_missing" and ok:
+                # no Section of that name anywhere / no such file: there is no original the object
+                # handed out could be a copy of. A name that exists further down (the library says
+                # the Section has to be a root Section; the property does not - weaker reading):
+                # whatever is handed out must at least be detached and consist of new objects only.
+                got = csnap["roots"].get(str(cur.get("ret")))
+                if op.get("what") in ("name", "url"):
+                    out.append("%s: clone_section handed out an object for a Section / a file that does "
+                               "not exist" % tag)
+                elif got is None or any(n["h"] is None or n["h"] < cur["n_objs"] for n in walk_nodes(got)):
+                    out.append("%s: clone_section handed out an object that is not a detached, new one" % tag)
             if o == "get_values" and ok:
                 src = find_node(psnap, op["p"])
                 got = csnap["lists"][cur["ret"]]
@@ -2510,6 +2682,14 @@ class C11(fw.Check):
         for n in nodes:
             if n["h"] is None or n["h"] < n_before:
                 out.append("%s: the copy contains an object that existed before (%s %r)" % (tag, n["k"], n["n"]))
+        if copy["k"] in ("doc", "sec") and len(copy["a"]) > 3 and "r" in copy:
+            # detached: the copy has no surroundings to take a repository from - what it answers
+            # (get_repository) is what it carries itself (and that is what the original carries
+            # itself: the comparison of the attributes below)
+            own = None if copy["a"][3] == "None" else copy["a"][3]
+            if copy["r"] != own:
+                out.append("%s: the copy answers get_repository() with %s but carries %s: it is not detached "
+                           "from the surroundings of the original" % (tag, copy["r"], own))
         if op["o"] == "clone":
             if op["children"]:
                 if strip(copy) != strip(src):
